@@ -139,6 +139,31 @@ func Dial(kind string, args ...any) (net.Conn, error) {
 				return nil, err
 			}
 			return conn, nil
+		case "tls.Dial":
+			var c *tls.Config
+			for _, a := range args {
+				if v, ok := a.(*tls.Config); ok {
+					c = v
+				}
+			}
+			conn, err := tls.Dial(network, addr, c)
+			if err != nil {
+				return nil, err
+			}
+			return conn, nil
+		case "net.Dialer.Dial":
+			if dialer == nil {
+				dialer = &net.Dialer{}
+			}
+			return dialer.Dial(network, addr)
+		case "net.Dial":
+			return net.Dial(network, addr)
+		case "net.DialTimeout":
+			to := time.Duration(0)
+			if dialer != nil {
+				to = dialer.Timeout
+			}
+			return net.DialTimeout(network, addr, to)
 		default:
 			return nil, fmt.Errorf("verifrt.Dial: no world installed and pass-through of %s not supported", kind)
 		}
